@@ -81,13 +81,58 @@ static void dump_table(ldb_tables_t *cache, uint64_t number, uint64_t size) {
   ldb_iter_destroy(it);
 }
 
+#ifndef K3
+/* K2_UNLINK_DELAY_US: every unlink sleeps first (pthread builds: widens the window between the
+ * garbage collector's decision and its unlink, during which the background thread runs).
+ * K2_SNAP_DIR: right after a write-ahead log has been unlinked the database directory is copied to
+ * <K2_SNAP_DIR>/<n>_<calls completed before the unlink>: a process-crash image taken at that moment (the only
+ * concurrent file mutation of a one-client run is the client appending to the current log: any prefix of it is
+ * a legal crash state, and every call completed BEFORE the unlink is entirely inside the copy). */
+#include <unistd.h>
+#include <dirent.h>
+#include <fcntl.h>
+#include <sys/stat.h>
+static volatile long g_calls_done = 0;
+static int g_nsnap = 0;
+int __real_unlink(const char *p);
+static void k2_snapshot_dir(const char *snaproot, long done) {
+  char dst[1400], a[1400], b[2000]; DIR *d; struct dirent *e; static char buf[1 << 16];
+  snprintf(dst, sizeof(dst), "%s/%d_%ld", snaproot, g_nsnap++, done);
+  mkdir(snaproot, 0755); mkdir(dst, 0755);
+  d = opendir(g_dir);
+  if (!d) return;
+  while ((e = readdir(d)) != NULL) {
+    int in, out; ssize_t n;
+    if (e->d_name[0] == '.' || !strcmp(e->d_name, "LOCK") || !strcmp(e->d_name, "LOG") || !strcmp(e->d_name, "LOG.old")) continue;
+    snprintf(a, sizeof(a), "%s/%s", g_dir, e->d_name); snprintf(b, sizeof(b), "%s/%s", dst, e->d_name);
+    in = open(a, O_RDONLY); if (in < 0) continue;
+    out = open(b, O_WRONLY | O_CREAT | O_TRUNC, 0644);
+    if (out >= 0) { while ((n = read(in, buf, sizeof(buf))) > 0) if (write(out, buf, n) != n) break; close(out); }
+    close(in);
+  }
+  closedir(d);
+}
+int __wrap_unlink(const char *p) {
+  static long delay = -1; static const char *snap = NULL; static int init = 0;
+  size_t l = strlen(p); int r; long done = g_calls_done;
+  if (!init) { const char *e = getenv("K2_UNLINK_DELAY_US"); delay = e ? atol(e) : 0; snap = getenv("K2_SNAP_DIR"); init = 1; }
+  if (delay > 0) usleep((useconds_t)delay);
+  r = __real_unlink(p);
+  if (r == 0 && snap && g_nsnap < 60 && l > 4 && !strcmp(p + l - 4, ".log") && !strncmp(p, g_dir, strlen(g_dir)))
+    k2_snapshot_dir(snap, done);
+  return r;
+}
+#endif
+
 /* ---- observation of every installed edit ---- */
 int __real_ldb_versions_apply(ldb_versions_t *vset, ldb_edit_t *edit, ldb_mutex_t *mu);
 static int g_quiet = 0;    /* > 0 while a second handle (backup/copy/failed open, k2_life.h) is at work: its edits are not the history's */
 int __wrap_ldb_versions_apply(ldb_versions_t *vset, ldb_edit_t *edit, ldb_mutex_t *mu) {
   rb_iter_t it; size_t i; int rc; int first;
   uint64_t snap = vset->last_sequence;
-  if (g_quiet) return __real_ldb_versions_apply(vset, edit, mu);
+  static int noedit = -1;
+  if (noedit < 0) noedit = getenv("K2_NOEDIT") != NULL;   /* threaded runs: the background thread's edits would interleave with RET lines */
+  if (g_quiet || noedit) return __real_ldb_versions_apply(vset, edit, mu);
   if (g_db != NULL && !ldb_snaplist_empty(&g_db->snapshots))
     snap = ldb_snaplist_oldest(&g_db->snapshots)->sequence;
   rc = __real_ldb_versions_apply(vset, edit, mu);
@@ -443,6 +488,9 @@ int main(int argc, char **argv) {
     }
     fflush(stdout);
     k3_mark('Z', callno - 1, a[0]);
+#ifndef K3
+    g_calls_done = callno;
+#endif
   }
   k3_mark('A', callno, "exit-close");
   do_close();
